@@ -165,8 +165,18 @@ def _first_wins(cx, repo, c_init, add):
             cx.ob("R14b", s, s.func.attr == "setdefault", "setdefault keeps the first registration" if s.func.attr == "setdefault" else f"syntax_map.{s.func.attr}() can overwrite or drop a registered item")
             continue
         key = norm(s.slice)
+        fs_ = list(facts(s))
+        # ... or the loop runs over a dict that was filtered by that very test (keys of a dict are distinct, and the only
+        # writes to the map inside the loop are the stores of these keys)
+        from sa.guards import iter_facts
+        for l_ in enclosing_loops(s):
+            if isinstance(l_, ast.For):
+                only_own = all(x is s or not (isinstance(x, ast.Subscript) and isinstance(x.ctx, (ast.Store, ast.Del)) and isinstance(x.value, ast.Attribute) and x.value.attr == "syntax_map")
+                               for x in ast.walk(l_))
+                if only_own:
+                    fs_ += iter_facts(l_)
         g = any(isinstance(e, ast.Compare) and len(e.ops) == 1 and ((isinstance(e.ops[0], ast.In) and not pol) or (isinstance(e.ops[0], ast.NotIn) and pol))
-                and norm(e.left) == key and norm(e.comparators[0]) == "self.syntax_map" for e, pol in facts(s))
+                and norm(e.left) == key and norm(e.comparators[0]) == "self.syntax_map" for e, pol in fs_)
         cx.ob("R14b", s, g, "an id is stored only if it is not present yet (first registration wins)" if g else
               "a later registration overwrites an existing id (component defaults could override the explicit configuration)")
         st = enclosing_stmt(s)
@@ -176,6 +186,14 @@ def _first_wins(cx, repo, c_init, add):
             # the init string is the one paired with the key in the iteration
             loop = next((l for l in enclosing_loops(s) if isinstance(l, ast.For)), None)
             ok = loop is not None and isinstance(loop.target, ast.Tuple) and [norm(x) for x in loop.target.elts] == [key, norm(v.args[1])] and norm(loop.iter).endswith(".items()")
+            if ok:
+                from sa.guards import iter_source
+                comp_, _b, _v = iter_source(loop)
+                if comp_ is not None:
+                    # a filtered copy must keep each id with its own init string
+                    g_ = comp_.generators[0]
+                    ok = isinstance(comp_, ast.DictComp) and isinstance(g_.target, ast.Tuple) and [norm(x) for x in g_.target.elts] == [norm(comp_.key), norm(comp_.value)] \
+                        and norm(g_.iter).endswith(".items()")
             ok = ok and any(norm(a) == "self.no_color" for a in v.args[2:] + [k.value for k in v.keywords])
         cx.ob("R14b", st, ok, "stored description is built from that id's own init string and the configuration's no_color" if ok else
               "stored description is not _ColorConfColorDescr(id, its init string, source, self.no_color)", stmt=norm(st)[:80] + " [value]")
@@ -275,6 +293,14 @@ def cache_rules(cx, repo, add, rule_b="R14e", rule_d="R14e"):
             ok = isinstance(t, ast.Call) and call_name(t) == "any" and isinstance(t.args[0], ast.GeneratorExp) and isinstance(t.args[0].elt, ast.Compare) and \
                 isinstance(t.args[0].elt.ops[0], ast.NotIn) and norm(t.args[0].elt.comparators[0]) == "self.syntax_map" and \
                 norm(t.args[0].elt.left) == norm(t.args[0].generators[0].target) and norm(t.args[0].generators[0].iter) in (newp, f"{newp}.keys()") and not t.args[0].generators[0].ifs
+            if not ok:
+                # `if <flag>` where the flag is the truth of the very collection the store loop runs over
+                from sa.guards import expand_at, iter_source
+                tx = norm(expand_at(t, s, calls=True))
+                _c, base_, _v = iter_source(store_loop)
+                b_ = norm(base_)
+                ok = tx in (b_, f"bool({b_})", f"len({b_}) > 0", f"len({b_}) != 0") and _c is not None and not _c.generators[0].ifs[1:] and \
+                    any(isinstance(e_, ast.Compare) and isinstance(e_.ops[0], ast.NotIn) and norm(e_.comparators[0]) == "self.syntax_map" for e_ in _c.generators[0].ifs)
             resets.append(("if-new" if ok else "other", s))
     good = [r for r in resets if r[0] in ("always", "if-new")]
     cx.ob(rule_b, good[0][1] if good else store_loop, bool(good), "the palette cache is reset before any new id is stored (condition: some id is new)" if good else
@@ -329,6 +355,14 @@ def cache_rules(cx, repo, add, rule_b="R14e", rule_d="R14e"):
     # any_modifications is set where an item is stored and where something gets resolved
     sets = [s for s in walk_local(add) if isinstance(s, ast.Assign) and is_name(s.targets[0], "any_modifications") and const(s.value, bool) and s.value.value is True]
     in_store = any(s in list(ast.walk(store_loop)) for s in sets)
+    if not in_store:
+        # the flag may be computed as "the collection of new items is not empty" before the loop
+        from sa.guards import iter_source as _its
+        _c, base_, _v = _its(store_loop)
+        b_ = norm(base_)
+        pre = [s_ for s_ in add.body[:add.body.index(store_loop)] if isinstance(s_, ast.Assign) and is_name(s_.targets[0], "any_modifications")
+               and norm(s_.value) in (f"bool({b_})", f"len({b_}) > 0", f"len({b_}) != 0")]
+        in_store = bool(pre) and _c is not None
     # outside the store loop the flag must be raised when something got resolved: it is guarded by a variable that is updated
     # (set True / added to) inside a loop that contains a resolve() call
     res_calls = [c for c in walk_local(add) if isinstance(c, ast.Call) and call_name(c) == "resolve"]
@@ -469,6 +503,14 @@ def _grammar(cx, descr, parse, parse_mod, repo):
     lk = [s for s in walk_local(parse_mod) if isinstance(s, ast.Assign) and isinstance(s.value, ast.Subscript) and norm(s.value.value).endswith("_MODIFIERS")]
     st = [s for s in walk_local(parse_mod) if isinstance(s, ast.Assign) and isinstance(s.targets[0], ast.Subscript)]
     ok = len(lk) == 1 and isinstance(lk[0].targets[0], ast.Tuple) and len(st) == 1 and [norm(x) for x in lk[0].targets[0].elts] == [norm(st[0].targets[0].slice), norm(st[0].value)]
+    if not lk and not st:
+        # dict(<table>[name] for name in names): the table's (effect, bool) pairs become the entries directly
+        dc = [c for c in walk_local(parse_mod) if isinstance(c, ast.Call) and isinstance(c.func, ast.Name) and c.func.id == "dict" and len(c.args) == 1
+              and isinstance(c.args[0], (ast.GeneratorExp, ast.ListComp)) and len(c.args[0].generators) == 1]
+        cx.need(len(dc) == 1, "R14h", parse_mod, "how modifier names become (effect, bool) entries is not recognised")
+        ge = dc[0].args[0]
+        ok = isinstance(ge.elt, ast.Subscript) and norm(ge.elt.value).endswith("_MODIFIERS") and norm(ge.elt.slice) == norm(ge.generators[0].target) and not ge.generators[0].ifs
+        lk = [enclosing_stmt(dc[0])]
     cx.ob("R14h", lk[0] if lk else parse_mod, ok, "each modifier sets its effect to the table's bool" if ok else "modifier parsing does not store table[effect] = bool")
     # colour names accepted by the description parser = names of the formatter + '' + '-' + greys
     cn = class_attr(descr, "_COLORS_NAMES")
@@ -581,8 +623,20 @@ def _flatten_rule(cx, repo):
         elif isinstance(st, ast.Expr) and isinstance(st.value, ast.Call) and call_name(st.value) == "update" and is_name(st.value.func.value, res):
             where = st
             a = st.value.args[0] if len(st.value.args) == 1 else None
-            cx.need(isinstance(a, ast.Call) and call_name(a) == fn.name, "R14i", st, "result.update(<recursive call>) expected")
-            got = rec_prefix(a) + (("R",),)
+            if isinstance(a, (ast.GeneratorExp, ast.ListComp, ast.DictComp)) and len(a.generators) == 1 and not a.generators[0].ifs:
+                # update((<key expr>, v) for sk, v in <recursive call>.items())   /   {<key expr>: v for sk, v in ....items()}
+                g_ = a.generators[0]
+                src_ = g_.iter.func.value if isinstance(g_.iter, ast.Call) and call_name(g_.iter) == "items" else None
+                kexpr = a.key if isinstance(a, ast.DictComp) else (a.elt.elts[0] if isinstance(a.elt, ast.Tuple) and len(a.elt.elts) == 2 else None)
+                vexpr = a.value if isinstance(a, ast.DictComp) else (a.elt.elts[1] if isinstance(a.elt, ast.Tuple) and len(a.elt.elts) == 2 else None)
+                cx.need(isinstance(src_, ast.Call) and call_name(src_) == fn.name and isinstance(g_.target, ast.Tuple) and len(g_.target.elts) == 2 and kexpr is not None
+                        and norm(vexpr) == norm(g_.target.elts[1]), "R14i", st, "update(<pairs built from the recursive call>) expected")
+                env = dict(env0)
+                env[g_.target.elts[0].id] = rec_prefix(src_) + (("R",),)
+                got = sym(kexpr, env)
+            else:
+                cx.need(isinstance(a, ast.Call) and call_name(a) == fn.name, "R14i", st, "result.update(<recursive call>) expected")
+                got = rec_prefix(a) + (("R",),)
             want = P + (("K",), ".", ("R",))
             what = "nested"
         else:
